@@ -1590,9 +1590,12 @@ func (ev *Evaluator) stmt(s ast.Stmt, env *Env, fr *Frame) ctl {
 			}
 			if x.Value != nil {
 				if id, ok := x.Value.(*ast.Ident); ok && id.Name != "_" {
+					// the iteration variable is a copy of the element (struct and array elements must not be shared with
+					// the table: `d.uplink = false` inside the loop does not touch it)
+					val := ev.copyIfValueType(it.v, ev.Info.TypeOf(x.Value))
 					if x.Tok == token.DEFINE {
-						inner.Bind(ev.Info.Defs[id], it.v)
-					} else if c := ev.assign(x.Value, it.v, inner, false); c != ctlNone {
+						inner.Bind(ev.Info.Defs[id], val)
+					} else if c := ev.assign(x.Value, val, inner, false); c != ctlNone {
 						return c
 					}
 				}
